@@ -68,6 +68,7 @@ vhostHTTPPort = %d
 tcpmuxHTTPConnectPort = %d
 auth.token = "%s"
 userConnTimeout = 5
+subDomainHost = "sub.c13.test"
 allowPorts = [{start=%d,end=%d}]
 `, bindPort, httpPort, muxPort, token, loPort, hiPort))
 	if err != nil {
@@ -122,14 +123,15 @@ func (m *member) ident(kind string) string {
 }
 
 type group struct {
-	c        *h.Case
-	probeSeq atomic.Int64
-	kind     string
-	name     string
-	key      string
-	domain   string
-	port     int // requested port (0 for tcp-auto)
-	real     int // port reported by the server (tcp kinds)
+	c         *h.Case
+	probeSeq  atomic.Int64
+	subdomain string // http groups addressed by subdomain (then domain = subdomain + "." + subDomainHost)
+	kind      string
+	name      string
+	key       string
+	domain    string
+	port      int // requested port (0 for tcp-auto)
+	real      int // port reported by the server (tcp kinds)
 	// http / tcpmux endpoint parameters beyond the domain: route restricted to an HTTP user and / or protected by credentials
 	routeUser string
 	authUser  string
@@ -180,6 +182,11 @@ func (g *group) allowed() (int, int) {
 
 func newGroup(c *h.Case, kind string) *group {
 	g := &group{c: c, kind: kind, name: fmt.Sprintf("c%d.g", c.Idx), key: fmt.Sprintf("k%d", c.Idx), domain: fmt.Sprintf("c%d.group.test", c.Idx)}
+	if kind == "http" && (c.Idx/4)%2 == 1 {
+		// every other http group is addressed by a subdomain of the server's subDomainHost instead of a custom domain
+		g.subdomain = fmt.Sprintf("c%dsub", c.Idx)
+		g.domain = g.subdomain + ".sub.c13.test"
+	}
 	if kind == "tcp-fixed" {
 		g.port = pickPort()
 	}
@@ -235,6 +242,9 @@ func (g *group) newProxyMsg(pname, key string, diffEndpoint bool) *msg.NewProxy 
 	case "http":
 		m.ProxyType = "http"
 		m.CustomDomains = []string{g.domain}
+		if g.subdomain != "" {
+			m.CustomDomains, m.SubDomain = nil, g.subdomain
+		}
 		m.RouteByHTTPUser, m.HTTPUser, m.HTTPPwd = g.routeUser, g.authUser, g.authPass
 		if diffEndpoint {
 			m.Locations = []string{"/other"}
